@@ -86,7 +86,7 @@ def plan(tier, seed):
         n = {"memo": 48, "feat": 64, "hash": 64, "contour": 64}
         k = {"memo": 16, "feat": 8, "hash": 4, "contour": 4}
     else:
-        n = {"memo": 1920, "feat": 3200, "hash": 3200, "contour": 3200}
+        n = {"memo": 1536, "feat": 2560, "hash": 2560, "contour": 2560}
         k = {"memo": 64, "feat": 32, "hash": 16, "contour": 16}
     shards = []
     for kind in ("memo", "feat", "hash", "contour"):
@@ -319,8 +319,16 @@ def _make_hashfile(orig):
         ctx = S.ctx
         if ctx is None:
             return orig(*args, **kwargs)
+        try:
+            ci0 = orig.cache_info()
+        except Exception:
+            ci0 = None
         real = _call(orig, *args, **kwargs)
         try:
+            if ci0 is not None:
+                ci1 = orig.cache_info()
+                ctx.count("hashfile_lru_hits", ci1.hits - ci0.hits)
+                ctx.count("hashfile_lru_misses", ci1.misses - ci0.misses)
             _judge_hashfile(ctx, undecorated, args, kwargs, real)
         except Exception as exc:
             ctx.error("hashfile monitor", exc)
@@ -524,10 +532,14 @@ def _judge_array(ctx, kind, obj, args, kwargs, real):
                   {"class": kind, "exc": repr(real[1])}, message=f"{kind}.__array__ raised")
         return
     got = real[1]
+    if dtype is not None and isinstance(got, np.ndarray) and got.dtype != np.dtype(dtype):
+        # numpy casts what __array__ returns; the property is about values
+        ctx.count(f"scalar_array_dtype_request_ignored[{kind}]")
+        got = got.astype(dtype)
     ok = M.same_value(np.asarray(got), np.asarray(fresh))
     finding = None
-    if not ok and entry is not None and entry[1].aliases and dtype is None \
-            and M.same_value(np.asarray(got), entry[1].shared):
+    if not ok and entry is not None and entry[1].aliases \
+            and M.same_value(np.asarray(got), np.asarray(entry[1].shared, dtype=dtype)):
         finding = D13
     ctx.check("scalar_array_equals_fresh", ok,
               lambda: {"class": kind, "source_of_fresh": src, "got": _short(got),
@@ -665,7 +677,7 @@ def run_memo(ctx, idx):
             arrays[nm][int(rng.integers(0, len(arrays[nm])))] = float(rng.normal())
             n_mut += 1
             ctx.count("memo_pool_array_changed_in_place")
-        if rng.random() < 0.004:
+        if rng.random() < 0.001:
             Cache.clear_cache()
         fn = targets[(c["fn"], c["via"])]
         args = [_resolve(r, arrays) for r in c["args"]]
@@ -722,7 +734,8 @@ def run_hash(ctx, idx):
             p = files[fi]
             if r < 0.25:
                 kind = str(rng.choice(["new_size", "same_size", "append", "truncate", "delete",
-                                       "replace", "restore_stat", "same_content_touch"]))
+                                       "replace", "restore_stat", "same_content_touch",
+                                       "new_size_same_mtime"]))
                 ctx.count(f"hash_file_op[{kind}]")
                 old = p.read_bytes() if p.exists() else b""
                 if kind == "new_size":
@@ -745,6 +758,12 @@ def run_hash(ctx, idx):
                     if p.exists() and len(old):
                         st = os.stat(p)
                         p.write_bytes(rng.bytes(len(old)))
+                        os.utime(p, ns=(st.st_atime_ns, st.st_mtime_ns))
+                elif kind == "new_size_same_mtime":
+                    # the size is part of the documented key: must be noticed
+                    if p.exists():
+                        st = os.stat(p)
+                        p.write_bytes(old + rng.bytes(int(rng.integers(1, 50))))
                         os.utime(p, ns=(st.st_atime_ns, st.st_mtime_ns))
                 else:
                     write(p, old)
@@ -793,7 +812,6 @@ def run_hash(ctx, idx):
             _call(util.hashfile, *args, **kw)      # judged by the monitor
         S.spec = None
         ci = util.hashfile.cache_info()
-        ctx.count("hash_lru_hits_seen_max", 0)
         ctx.count("hash_sequences")
         if nontrivial:
             ctx.mark_nontrivial(["hash", idx, n_ops])
